@@ -36,6 +36,8 @@ fn take_tag<'a>(src: &mut &'a [u8]) -> io::Result<&'a [u8]> {
         *src = rest;
         Ok(buf)
     } else {
+        // Nothing can be parsed after a malformed field: consume the rest so that iteration ends.
+        *src = &src[src.len()..];
         Err(io::Error::new(io::ErrorKind::InvalidData, "invalid tag"))
     }
 }
